@@ -276,8 +276,8 @@ def same(a, b, tol=1e-9):
         pass
     if a == b:
         return True
-    if isinstance(a, int) and isinstance(b, int):
-        return False  # integers are compared exactly
+    if isinstance(b, int):
+        return False  # an expected integer is matched exactly, also by a float result (no tolerance on big integers)
     try:
         fa, fb = float(a), float(b)
     except Exception:
